@@ -10,8 +10,10 @@ from sim import fleet, findings
 from sim.log import jdigest
 
 VERIF_DIR = fleet.VERIF_DIR
-EVID_DIR = os.path.join(VERIF_DIR, "evidence")
-REPLAY_DIR = os.path.join(VERIF_DIR, "replays")
+# the sensitivity self-test points both at a scratch directory so that a run
+# against a mutated copy never clobbers the evidence of /repo
+EVID_DIR = os.environ.get("VERIF_EVIDENCE_DIR") or os.path.join(VERIF_DIR, "evidence")
+REPLAY_DIR = os.environ.get("VERIF_REPLAY_DIR") or os.path.join(VERIF_DIR, "replays")
 
 DEFAULT_SEED = 20260924
 
